@@ -218,7 +218,15 @@ class BaseCommand(FlockMixin, ABC):
             env["GALLIA_EXIT_CODE"] = str(exit_code)
 
         try:
-            p = run(script, env=env, text=True, capture_output=True, shell=True, check=True)
+            p = run(
+                script,
+                env=env,
+                text=True,
+                errors="replace",  # The output of a hook is only logged; it must not be able to raise
+                capture_output=True,
+                shell=True,
+                check=True,
+            )
             stdout = p.stdout
             stderr = p.stderr
         except CalledProcessError as e:
